@@ -34,7 +34,18 @@ RULE = ("cases: (network, secret exponent, compression flag) round trips through
         "every value 0..255 of the 33rd byte, marker with a short / long exponent field, marker or padding in front, boundary exponents "
         "(0, 1, n-1, n, n+1, 2^256-1, leading zero bytes, fields that begin with the prefix byte), dropped / doubled / altered / foreign "
         "prefixes, random bodies, damaged checksums, each through parse.wif, parse.private_key, parse.secret and parse(), as str and as "
-        "one reused parseable_str. Distinct by (operation, network, input, spelling); non-trivial unless the blob is empty.")
+        "one reused parseable_str. Refused calls of every constructible kind (out-of-range aliases e+n / e-n / e+2^256 of the very exponent used next, "
+        "None / float / str / bytes exponents, both or neither constructor argument, SEC relatives of the point decoded next: x+p alias, hybrid, "
+        "truncated, extended, off-curve, str / None / list; malformed pairs; WIF relatives: bad checksum / marker / length / prefix / range, non-str; "
+        "number and SEC texts; DER junk / trailing / truncated / non-bytes, sigencode_der of None / float / negative / str; sign / verify refusals on "
+        "the object; generator * None / str / float) are placed between the judged calls of every round trip, in front of valid SEC blobs and "
+        "between DER encode / decode (position recorded in the case). Caller-owned bytearray SEC / DER blobs and list pairs: unchanged by the call, "
+        "same answer twice, same answer as for bytes; returned bytearray / list values are edited by the caller before the query is repeated. "
+        "Exponents whose public point has short coordinates (x, y, both), int-subclass / bool exponents with 1 / 0 flags, special points "
+        "(y = +-1, smallest x, x just below p) as pairs in every spelling. One long-run shard: 2^16 + 100 (thorough 2^17 + 100) private-key "
+        "constructions (keys.private, parse.wif, Key(secret_exponent=), parse.secret_exponent over all networks that share the generator) in ONE "
+        "process, every one judged against a running sum of points, with sec / hash160 / public_pair (+ one random query) asked of ONE "
+        "private and ONE public key object on every step. Distinct by (operation, network, input, spelling); non-trivial unless the blob is empty.")
 ASSUMPTIONS = [
     "references vmon/refs/sec.py, der.py, b58.py, ec.py are correct (self-tested on every run: published secp256k1 "
     "encodings and hash160 values, exhaustive blob enumeration on toy curves, X.690 hand vectors, exhaustive small-alphabet DER)",
@@ -66,6 +77,14 @@ ASSUMPTIONS = [
     "Curve object whose coordinates lie on secp256k1 may be refused (when accepted it must be that key)",
     "the hex text of a SEC blob is a spelling of that blob: parse.sec / parse.public_key return a key only for the unique encoding of a "
     "point, and then that point and flag (own mechanism keys sec.text_*); the number text of an out-of-range exponent gives no key",
+    "a refused call is never judged where it is placed as a disturbance (only the judged calls around it are); a decoder that refuses a "
+    "bytearray / list argument altogether is tolerated; what happens to a key when the caller edits a list / bytearray it handed in "
+    "AFTER the call is not judged (the statement does not speak of it; Key(public_pair=[x, y]) keeps the caller's list today)",
+    "long run: the point pycoin answers is tested with the cross-multiplied chord law against the previous point and the table "
+    "point (accepted points become the running sum; every 512th step and every degenerate step is recomputed with the affine reference "
+    "and e*G from scratch; disagreement between these formulations is INCONCLUSIVE, not a violation). Base58 texts (wif, address) are judged "
+    "on every parse.wif step and every 8th other step on the quick tier (pycoin's Base58 costs a sixth of a multiplication), compressed-SEC "
+    "decoding on every step only on the thorough tier; the pure-Python configuration has no long run (an hour of CPU)",
     "every clause has a required counter; counters are summed over shards, so what the PYCOIN_NATIVE=none shards reached is also "
     "recorded (and required) as purepython/<counter>, and each shard records the arithmetic it really ran with "
     "(config_active:<openssl|purepython>/<shard kind>, required for the planned one): a shard that silently ran the other "
@@ -79,6 +98,8 @@ N = REC.SECP256K1.n
 P_ = REC.SECP256K1.p
 C = REC.SECP256K1
 LENGTHS = [0, 1, 32, 33, 34, 64, 65, 66]
+# one process, one generator object: more key constructions than a 16-bit counter holds (thorough: a 17-bit one)
+LONGRUN_OPS = {"quick": (1 << 16) + 100, "thorough": (1 << 17) + 100}
 _SEC_LENGTHS, _DER_LENGTHS = set(), set()
 
 
@@ -94,6 +115,18 @@ def configurations(tier):
 
 
 def plan(tier, seed):
+    shards = _plan_base(tier, seed)
+    # the shards above keep the shard number (their random streams) and the process configuration they had before the long-run
+    # shard was put in front of them (it starts first because it is the longest)
+    for i, s in enumerate(shards):
+        s["shard"] = i
+        s["preload_networks"] = PRELOAD_NETWORK_ORDERS[(i % 3 - 1 + seed) % len(PRELOAD_NETWORK_ORDERS)] if i % 3 else []
+    longrun = {"kind": "longrun", "ops": LONGRUN_OPS["quick" if tier == "quick" else "thorough"], "shard": len(shards), "preload_networks": [],
+               "label": "longrun-one-process"}
+    return [longrun] + shards
+
+
+def _plan_base(tier, seed):
     q = tier == "quick"
     shards = []
     for part in range(6):
@@ -120,6 +153,12 @@ def plan(tier, seed):
 
 
 def selftest(rec):
+    for e, (xs, ys) in SHORT_COORDINATE_EXPONENTS.items():
+        x, y = C.mul(e, C.G)
+        assert (x < 1 << 248, y < 1 << 248) == (xs, ys) and C.mul_affine(e, C.G) == (x, y), e
+    assert _is_sum(C.G, C.mul(2, C.G), C.mul(3, C.G)) and not _is_sum(C.G, C.mul(2, C.G), C.mul(4, C.G)) and not _is_sum(C.G, C.mul(2, C.G), C.neg(C.mul(3, C.G)))
+    a, b = C.mul(0x1234567, C.G), C.mul(N - 99, C.G)
+    assert _is_sum(a, b, C.add(a, b)) and not _is_sum(a, b, (C.add(a, b)[0], a[1]))
     return {"ec": REC.selftest(), "sec": RS.selftest(), "der": RD.selftest(), "b58_vectors": RB.selftest(), "wif": RW.selftest()}
 
 
@@ -155,6 +194,14 @@ class M:
         import os
         self.pure = os.environ.get("PYCOIN_NATIVE") == "none"
         self.replay = False
+        self.disturb = None                      # a Disturber, in the shards that interleave refused calls
+        self._wp = {}
+
+    def wif_prefix(self, code):
+        if code not in self._wp:
+            raw = RB.decode_check(observe(self.nets[code].keys.private(1).wif)[1] or "")
+            self._wp[code] = raw[:-33] if raw is not None and len(raw) > 33 else b"\x80"
+        return self._wp[code]
 
     def keyclass(self, code):
         if code not in self._kc:
@@ -167,9 +214,18 @@ class M:
         return self._pub[se]
 
 
+# exponents whose public point has coordinates with leading zero bytes: y short, x short, x two bytes short, both short at once
+# (found with the reference arithmetic; selftest() checks the claim)
+SHORT_COORDINATE_EXPONENTS = {122: (False, True), 153: (True, False), 44629: (True, False), 55959: (True, True)}
+
+
 def boundary_exponents():
     return [1, 2, 3, N - 1, N - 2, (N - 1) // 2, (N + 1) // 2, 1 << 128, (1 << 255), 0xff, 1 << 248, (1 << 248) - 1,
-            P_ - N, 0x0100, N - (1 << 128), 0x80 << 240, int("01" * 32, 16), int("7f" + "ff" * 31, 16)]
+            P_ - N, 0x0100, N - (1 << 128), 0x80 << 240, int("01" * 32, 16), int("7f" + "ff" * 31, 16)] + sorted(SHORT_COORDINATE_EXPONENTS)
+
+
+class _IntT(int):
+    """an integer that is not exactly an int"""
 
 
 def _no_secret(observed):
@@ -185,11 +241,187 @@ def _split_address(text):
     return raw[:-20], raw[-20:]
 
 
+# ---------------------------------------------------------------------------------------------
+# calls the library refuses, placed between the judged calls: what they leave behind must not change the next answers.
+# A refusal is never judged here (nor is an acceptance: the strictness clauses are judged where the blobs / texts are enumerated).
+
+REFUSED_KINDS = (
+    # secret exponents: out-of-range aliases of the very exponent that is used next, and things that are not integers
+    "secret:zero", "secret:alias_plus_n", "secret:alias_minus_n", "secret:alias_plus_2^256", "secret:none", "secret:float", "secret:str",
+    "secret:bytes", "key:both", "key:neither",
+    # SEC blobs derived from the point that is decoded next
+    "sec:empty", "sec:truncated", "sec:extended", "sec:x_alias_plus_p", "sec:hybrid", "sec:off_curve", "sec:prefix_05", "sec:str", "sec:none",
+    "sec:list",
+    "pair:off_curve", "pair:infinity", "pair:none_y", "pair:str_y", "pair:short", "pair:none",
+    "wif:bad_checksum", "wif:bad_marker", "wif:short_exponent", "wif:alias_plus_n", "wif:foreign_prefix", "wif:none", "wif:bytes", "wif:int",
+    "text:exponent_zero", "text:exponent_alias", "text:exponent_none", "text:sec_none", "text:sec_bytes", "text:sec_odd_hex",
+    "der:junk", "der:trailing", "der:truncated", "der:str", "der:none", "der:list", "der:encode_none", "der:encode_float", "der:encode_negative",
+    "der:encode_str",
+    "obj:sign_none", "obj:sign_public", "obj:verify_none", "obj:verify_junk",
+    "generator:mul_none", "generator:mul_str", "generator:mul_float",
+)
+DER_REFUSED_KINDS = tuple(k for k in REFUSED_KINDS if k.startswith("der:"))
+SEC_REFUSED_KINDS = tuple(k for k in REFUSED_KINDS if k.startswith(("sec:", "pair:", "text:sec")))
+
+
+def refused_call(kind, n, net, code, rec, m, se=1, comp=True, P=None, key=None, r=1, s=1):
+    """one call of the named kind; n (a running number) picks the entry point where several take the same input"""
+    fam, _, what = kind.partition(":")
+    if fam != "der":
+        if P is None:
+            P = m.refpub(se)
+        KeyClass = m.keyclass(code)
+        x, y = P
+        sec_c, sec_u = RS.encode(P, True), RS.encode(P, False)
+    if fam == "secret":
+        v = {"zero": 0, "alias_plus_n": se + N, "alias_minus_n": se - N, "alias_plus_2^256": se + (1 << 256), "none": None,
+             "float": 1.5 if n & 2 else float(se), "str": str(se), "bytes": se.to_bytes(32, "big")}[what]
+        fn = [lambda: net.keys.private(v), lambda: KeyClass(secret_exponent=v, is_compressed=comp), lambda: net.keys.private(v, is_compressed=False)][n % 3]
+    elif kind == "key:both":
+        fn = lambda: KeyClass(secret_exponent=se, public_pair=P)
+    elif kind == "key:neither":
+        fn = lambda: KeyClass()
+    elif fam == "sec":
+        b = {"empty": b"", "truncated": (sec_c if n & 4 else sec_u)[:-1], "extended": (sec_u if n & 4 else sec_c) + b"\x00",
+             "x_alias_plus_p": (bytes([2 + (y & 1)]) + _b32(x + P_)) if x + P_ < 1 << 256 else b"\x02" + _b32(P_),
+             "hybrid": bytes([6 + (y & 1)]) + sec_u[1:], "off_curve": sec_u[:-1] + bytes([sec_u[-1] ^ 1]), "prefix_05": b"\x05" + sec_c[1:],
+             "str": sec_c.hex(), "none": None, "list": list(sec_c)}[what]
+        fn = [lambda: KeyClass.from_sec(b), lambda: net.keys.public(b), lambda: m.sec_to_public_pair(b, net.generator),
+              lambda: net.parse.sec(b.hex() if isinstance(b, bytes) else b)][n % 4 if what != "str" else n % 3]
+    elif fam == "pair":
+        v = {"off_curve": (x, y ^ 1), "infinity": (None, None), "none_y": (x, None), "str_y": (x, "abc"), "short": (x,), "none": None}[what]
+        fn = [lambda: net.keys.public(v), lambda: KeyClass(public_pair=v), lambda: net.keys.public(v, is_compressed=False)][n % 3]
+    elif fam == "wif":
+        pw = m.wif_prefix(code)
+        body = se.to_bytes(32, "big")
+        good = RW.encode(pw, se, comp)
+        alphabet = "123456789ABCDEFGHJKLMNPQRSTUVWXYZabcdefghijkmnopqrstuvwxyz"
+        v = {"bad_checksum": good[:-1] + alphabet[(alphabet.index(good[-1]) + 1 + n % 57) % 58],
+             "bad_marker": RB.encode_check(pw + body + bytes([2 + n % 254])), "short_exponent": RB.encode_check(pw + body[2:] + (b"\x01" if comp else b"")),
+             "alias_plus_n": RB.encode_check(pw + ((se + N) if se + N < 1 << 256 else 0).to_bytes(32, "big") + (b"\x01" if comp else b"")),
+             "foreign_prefix": RB.encode_check(bytes([pw[0] ^ 1]) + pw[1:] + body + (b"\x01" if comp else b"")),
+             "none": None, "bytes": good.encode(), "int": se}[what]
+        P_api = net.parse
+        fn = [lambda: P_api.wif(v), lambda: P_api.wif(v), lambda: P_api.private_key(v), lambda: P_api.wif(v), lambda: P_api.secret(v)][
+            n % 5 if not m.pure and isinstance(v, str) else 0]
+    elif fam == "text":
+        if what.startswith("exponent"):
+            v = {"exponent_zero": "0", "exponent_alias": str(se + N), "exponent_none": None}[what]
+            fn = lambda: net.parse.secret_exponent(v)
+        else:
+            v = {"sec_none": None, "sec_bytes": sec_c, "sec_odd_hex": sec_c.hex()[:-1]}[what]
+            fn = lambda: net.parse.sec(v)
+    elif fam == "der":
+        good = RD.encode(r, s)
+        if what.startswith("encode"):
+            v = {"encode_none": None, "encode_float": 1.5, "encode_negative": -1 - r, "encode_str": str(r)}[what]
+            fn = (lambda: m.der.sigencode_der(v, s)) if n & 1 else (lambda: m.der.sigencode_der(r, v))
+        else:
+            v = {"junk": b"junk", "trailing": good + b"\x00", "truncated": good[:-1], "str": good.hex(), "none": None, "list": list(good)}[what]
+            fn = lambda: m.der.sigdecode_der(v, use_broken_open_ssl_mechanism=False)
+    elif fam == "obj":
+        if key is None:
+            st, key = observe(net.keys.public, sec_c if comp else sec_u)
+            if st != "ok":
+                return
+        if what == "sign_none":
+            fn = lambda: key.sign(None)
+        elif what == "sign_public":
+            fn = lambda: key.public_copy().sign(b"\x11" * 32)
+        elif what == "verify_none":
+            fn = lambda: key.verify(None, None)
+        else:
+            fn = lambda: key.verify(b"\x11" * 32, b"junk" if n & 1 else b"\x30\x06\x02\x01\x01\x02\x01")
+    elif fam == "generator":
+        v = {"mul_none": None, "mul_str": "2", "mul_float": 2.5}[what]
+        fn = (lambda: net.generator * v) if n & 1 else (lambda: v * net.generator)
+    else:
+        raise ValueError(kind)
+    st, v_ = observe(fn)
+    rec.ev("refused_call:" + kind)
+    if st == "ok" and v_ is not None and v_ is not False:
+        rec.ev("refused_call_answered:" + fam)         # not judged here
+
+
+def _scribble(v, rec):
+    """the caller edits a mutable container it was handed; -> the value as it was (a copy) for the comparison"""
+    if isinstance(v, bytearray):
+        rec.ev("returned_container:mutable_edited")
+        keep = bytes(v)
+        if len(v):
+            v[0] ^= 0xff
+        return keep
+    if isinstance(v, list):
+        rec.ev("returned_container:mutable_edited")
+        keep = list(v)
+        if len(v):
+            v[0] = None
+        return keep
+    if isinstance(v, (dict, set)):
+        rec.ev("returned_container:mutable_edited")
+        keep = type(v)(v)
+        v.clear()
+        return keep
+    rec.ev("returned_container:immutable")
+    return v
+
+
+class Disturber(object):
+    """rotates through the kinds of refused calls; the position is written into the case so that a replay places the same calls"""
+
+    def __init__(self, rec, m, start=0, kinds=REFUSED_KINDS, per_call=2):
+        self.rec, self.m, self.i, self.kinds, self.per_call = rec, m, start, kinds, per_call
+
+    def __call__(self, net, code, **kw):
+        for _ in range(self.per_call):
+            kind = self.kinds[self.i % len(self.kinds)]
+            refused_call(kind, self.i, net, code, self.rec, self.m, **kw)
+            self.i += 1
+
+
+def _sec_answer(obs):
+    st, v = obs
+    if st != "ok" or v is None:
+        return ("refused",)
+    if hasattr(v, "public_pair"):
+        return ("key", tuple(v.public_pair()), bool(v.is_compressed()), observe(v.sec)[1])
+    return ("pair", tuple(v))
+
+
+def judge_mutable_sec(net, code, blob, rec, m):
+    """a SEC blob handed over in a caller-owned bytearray: the call leaves it as it was and answers the same both times — and the same
+    as for the bytes (a decoder that refuses bytearray altogether is tolerated)"""
+    KeyClass = m.keyclass(code)
+    for name, fn in (("Key.from_sec", KeyClass.from_sec), ("keys.public(sec)", net.keys.public),
+                     ("sec_to_public_pair", lambda b: m.sec_to_public_pair(b, net.generator))):
+        ba = bytearray(blob)
+        rec.ev("mutable_arg:sec_bytearray")
+        case = {"net": code, "blob": blob, "entry": name, "argument": "bytearray"}
+        a1 = _sec_answer(observe(fn, ba))
+        a2 = _sec_answer(observe(fn, ba))
+        if bytes(ba) != blob:
+            rec.violation("args.sec_bytearray_modified", case, bytes(ba), blob)
+            continue
+        if a1 != a2:
+            rec.violation("args.sec_second_call_differs", case, a1, a2)
+            continue
+        if a1 == ("refused",):
+            rec.ev("mutable_arg_refused")
+            continue
+        a0 = _sec_answer(observe(fn, bytes(blob)))
+        if a0 != a1:
+            rec.violation("args.sec_bytearray_answer_differs", case, a1, a0)
+
+
 def check_key(net, code, se, comp, rec, m, prefixes):
     """All round trips for one (network, exponent, compression flag)."""
     case = {"net": code, "se": se, "compressed": comp}
     rec.case(("rt", code, se, comp))
     Pref = m.refpub(se)
+    if m.disturb is not None:
+        case["disturb_from"] = m.disturb.i           # refused calls are placed between the judged ones from here on
+    disturb = (lambda key=None: m.disturb(net, code, se=se, comp=comp, P=Pref, key=key)) if m.disturb is not None else (lambda key=None: None)
+    disturb()
     rec.ev("Key(secret_exponent)")
     st, k = observe(net.keys.private, se, is_compressed=comp)
     if st != "ok":
@@ -203,6 +435,9 @@ def check_key(net, code, se, comp, rec, m, prefixes):
     sec_c, sec_u = RS.encode(Pref, True), RS.encode(Pref, False)
     mine = sec_c if comp else sec_u
     other = sec_u if comp else sec_c
+    if Pref[0] < 1 << 248 or Pref[1] < 1 << 248:
+        rec.ev("short_coordinate_key:" + ("both" if Pref[0] < 1 << 248 and Pref[1] < 1 << 248 else "x" if Pref[0] < 1 << 248 else "y"))
+    disturb(k)
     # --- SEC / hash160 / address straight from the private key
     rec.ev("key.sec")
     got = [observe(k.sec)[1], observe(k.sec, is_compressed=True)[1], observe(k.sec, is_compressed=False)[1]]
@@ -213,6 +448,7 @@ def check_key(net, code, se, comp, rec, m, prefixes):
     got = [observe(k.hash160)[1], observe(k.hash160, is_compressed=not comp)[1], observe(k.hash160)[1]]
     if got != [h_mine, h_other, h_mine]:
         rec.violation("hash160.mismatch", case, got, [h_mine, h_other, h_mine])
+    disturb(k)
     rec.ev("key.address")
     st, addr = observe(k.address)
     st2, addr_o = observe(k.address, is_compressed=not comp)
@@ -226,6 +462,7 @@ def check_key(net, code, se, comp, rec, m, prefixes):
             rec.violation("address.prefix_varies", case, pa, want)
     # --- WIF both ways
     for wc in (comp, not comp):
+        disturb(k)
         rec.ev("key.wif")
         st, w = observe(k.wif) if wc == comp else observe(k.wif, is_compressed=wc)
         raw = RB.decode_check(w) if st == "ok" and isinstance(w, str) else None
@@ -236,11 +473,13 @@ def check_key(net, code, se, comp, rec, m, prefixes):
         pw = raw[:-len(tail)]
         if prefixes.setdefault("wif", pw) != pw:
             rec.violation("wif.prefix_varies", dict(case, wif_compressed=wc), pw, prefixes["wif"])
+        disturb()
         rec.ev("parse.wif")
         st, k2 = observe(net.parse.wif, w)
         if st != "ok" or k2 is None:
             rec.violation("wif.roundtrip_refused", dict(case, wif_compressed=wc), k2, "key")
             continue
+        disturb(k2)
         exp_sec = sec_c if wc else sec_u
         exp_addr = addr if wc == comp else addr_o
         obs = [k2.secret_exponent(), bool(k2.is_compressed()), tuple(k2.public_pair()), observe(k2.sec)[1], observe(k2.hash160)[1],
@@ -255,11 +494,13 @@ def check_key(net, code, se, comp, rec, m, prefixes):
     for blob, bc in ((sec_c, True), (sec_u, False)):
         exp_addr = addr if bc == comp else addr_o
         for name, fn in (("keys.public(sec)", net.keys.public), ("Key.from_sec", KeyClass.from_sec)):
+            disturb()
             rec.ev(name)
             st, pk = observe(fn, blob)
             if st != "ok":
                 rec.violation("sec.rejects_valid", dict(case, blob=blob, entry=name), pk, "key")
                 continue
+            disturb(pk)
             obs = [tuple(pk.public_pair()), bool(pk.is_compressed()), observe(pk.sec)[1], observe(pk.hash160)[1], observe(pk.address)[1],
                    _no_secret(observe(pk.secret_exponent)), _no_secret(observe(pk.wif))]
             exp = [Pref, bc, blob, RS.hash160(blob), exp_addr, True, True]
@@ -267,6 +508,8 @@ def check_key(net, code, se, comp, rec, m, prefixes):
                 names = ["public_pair", "compression_flag", "sec", "hash160", "address", "secret_exponent", "wif"]
                 bad = [n for n, a, b in zip(names, obs, exp) if a != b]
                 rec.violation("sec.roundtrip_changes_" + bad[0], dict(case, blob=blob, entry=name), obs, exp)
+        judge_mutable_sec(net, code, blob, rec, m)
+        disturb()
         rec.ev("sec_to_public_pair")
         st, pp = observe(m.sec_to_public_pair, blob, net.generator)
         if st != "ok" or tuple(pp) != Pref:
@@ -284,11 +527,26 @@ def check_key(net, code, se, comp, rec, m, prefixes):
             elif [tuple(pk.public_pair()), bool(pk.is_compressed()), observe(pk.sec)[1], observe(pk.address)[1]] != [Pref, bc, blob, exp_addr]:
                 rec.violation("sec.text_roundtrip_mismatch", dict(case, sec_text_compressed=bc, entry=name),
                               [tuple(pk.public_pair()), pk.is_compressed(), observe(pk.sec)[1], observe(pk.address)[1]], [Pref, bc, blob, exp_addr])
+    disturb()
     rec.ev("Key(public_pair)")
     st, pk = observe(net.keys.public, Pref, is_compressed=comp)
     if st != "ok" or tuple(pk.public_pair()) != Pref or bool(pk.is_compressed()) is not comp or observe(pk.sec)[1] != mine \
             or observe(pk.address)[1] != addr or observe(pk.hash160)[1] != h_mine:
         rec.violation("key.public_pair_roundtrip", case, pk, Pref)
+    # value-equal flavours of the arguments: the exponent as an int subclass (True for 1), the flag as 1 / 0
+    if not m.pure or m.replay:
+        rec.ev("argument_flavour:int_subclass_exponent_int_flag")
+        fl = True if se == 1 and not comp else _IntT(se)
+        st, kf = observe(net.keys.private, fl, is_compressed=int(comp))
+        if st != "ok":
+            rec.violation("key.valid_exponent_refused", dict(case, flavour=type(fl).__name__), kf, "key")
+        else:
+            obs = [observe(kf.secret_exponent)[1], bool(observe(kf.is_compressed)[1]), tuple(kf.public_pair()), observe(kf.sec)[1], observe(kf.hash160)[1],
+                   observe(kf.address)[1], observe(kf.wif)[1]]
+            exp = [se, comp, Pref, mine, h_mine, addr, observe(k.wif)[1]]
+            if obs != exp:
+                names = ["secret_exponent", "compression_flag", "public_pair", "sec", "hash160", "address", "wif"]
+                rec.violation("key.flavour_changes_" + [n for n, a, b in zip(names, obs, exp) if a != b][0], dict(case, flavour=type(fl).__name__), obs, exp)
     # the same pair handed over as a Point object of the network's own curve / as a tuple subclass
     entry = "keys.public(pair)" if comp else "keys.public(pair, uncompressed)"
     for form in ("point_own", "tuple_subclass"):
@@ -313,15 +571,19 @@ def check_key(net, code, se, comp, rec, m, prefixes):
         if os.environ.get("PYCOIN_NATIVE") == "none":
             objects = objects[1:]                # a further pure-Python point multiplication per case is not worth its 20 ms
         for label, make, exp in objects:
+            disturb()
             st, obj = observe(make)
             if st != "ok":
                 continue                         # reported above
             queries = sorted(exp, key=lambda q: (q[0], str(q[1]))) * 2
             order_rng.shuffle(queries)
             rec.ev("key.query_history")
-            for name, flag in queries:
+            for qi, (name, flag) in enumerate(queries):
+                if qi % 6 == 3:
+                    disturb(obj)
                 meth = getattr(obj, name)
                 st, got = observe(meth) if flag is None else observe(meth, is_compressed=flag)
+                got = _scribble(got, rec)              # what the caller does with the value it was given changes no later answer
                 if name == "public_pair" and st == "ok":
                     got = tuple(got)
                 if name == "is_compressed" and st == "ok":
@@ -339,6 +601,7 @@ def run_roundtrip(spec, rec, m):
     rng = shard_rng(spec["seed"], PROPERTY, spec["tier"], spec["shard"])
     codes = [c for i, c in enumerate(sorted(m.nets)) if i % spec["parts"] == spec["part"]]
     bounds = boundary_exponents()
+    m.disturb = Disturber(rec, m, start=spec["part"] * 11 + spec["seed"])
     for ci, code in enumerate(codes):
         net = m.nets[code]
         prefixes = {}
@@ -604,6 +867,9 @@ def run_history(net, code, src, steps, rec, m, pf):
                     st, r = observe(obj.verify, b"\x11" * 32, b"\x30\x06\x02\x01\x01\x02\x01\x01" if flag else b"junk")
                 observe(m.keyclass(code), secret_exponent=0, is_compressed=bool(flag))
                 observe(net.parse.wif, "not a wif")
+                # ... and three further kinds of refused calls, built from this object's own exponent / point
+                d = Disturber(rec, m, start=si * 5 + (0 if flag is None else 1 + int(bool(flag))), per_call=3)
+                d(net, code, se=mo.se if mo.se is not None else 1, comp=bool(mo.comp), P=mo.pub, key=obj)
             else:
                 st, rows = observe(lambda: list(obj.ku_output()))
                 if st == "ok":
@@ -942,7 +1208,15 @@ def _namedpair():
 
 
 def _wrap_pair(pr, form, net):
-    """-> the object handed to pycoin, or None when the pair cannot be spelled that way"""
+    """-> the object handed to pycoin, or None when the pair cannot be spelled that way (also when pycoin's Point constructor will not
+    build it: the plain tuple spelling of the same pair is what gets judged then)"""
+    try:
+        return _wrap_pair_(pr, form, net)
+    except Exception:
+        return None
+
+
+def _wrap_pair_(pr, form, net):
     from pycoin.ecdsa.Curve import Curve
     from pycoin.ecdsa.secp256r1 import secp256r1_generator
     if pr == (None, None):
@@ -1004,6 +1278,13 @@ def judge_pair(net, code, pr, form, entry, rec, m):
     if form.startswith("point_") and form != "point_own":
         rec.ev("foreign_curve_point" + (":off_curve" if not on else ":on_curve"))
     st, r = observe(fn, obj)
+    if form == "list":
+        rec.ev("mutable_arg:pair_list")
+        st2, r2 = observe(fn, obj)
+        if obj != [x_ for x_ in pr]:
+            rec.violation("args.pair_list_modified", case, obj, list(pr))
+        elif st != st2 or (st == "ok" and [tuple(r.public_pair()), observe(r.sec)[1]] != [tuple(r2.public_pair()), observe(r2.sec)[1]]):
+            rec.violation("args.pair_second_call_differs", case, [r, r2], "the same answer")
     if on:
         if st != "ok" and form in ("point_same_field_b", "point_same_field_a3"):
             # a Point object bound to another Curve object whose coordinates happen to lie on secp256k1: the statement does not say
@@ -1059,6 +1340,19 @@ def judge_bad_secret(net, code, v, name, rec, m):
         rec.violation("secret.text_accepts_out_of_range", case, [observe(r.secret_exponent)[1], observe(r.wif)[1]], "no key (None or an exception)")
 
 
+def _SPECIAL_POINTS(_memo=[]):
+    if not _memo:
+        x = 1
+        while C.lift_x(x) is None:
+            x += 1
+        _memo.append(C.lift_x(x)[0])
+        x = P_ - 1
+        while C.lift_x(x) is None:
+            x -= 1
+        _memo.append(C.lift_x(x)[1])
+    return _memo
+
+
 def run_secret(spec, rec, m):
     rng = shard_rng(spec["seed"], PROPERTY, spec["tier"], spec["shard"])
     fixed_bad = [0, N, N + 1, (1 << 256) - 1, -1, -N, 1 << 256, 2 * N, N + (1 << 128), 1 << 300, -(1 << 255), -(N - 1), (1 << 256) + 1]
@@ -1108,7 +1402,13 @@ def run_secret(spec, rec, m):
                     + [rng.randrange(1, R1.n) for _ in range(max(2, spec["n"] // 8))]]
         # genuine points: every spelling must be accepted
         good = [C.G, C.mul(2, C.G), C.neg(C.G)]
-        while len(good) < 3 + max(3, spec["n"] // 8):
+        # special coordinates: y = 1 and y = p - 1, the smallest x, x just below p, both coordinates short
+        for pt in (RS.point_with_y(1), _SPECIAL_POINTS()[0], _SPECIAL_POINTS()[1], C.mul(55959, C.G)):
+            if pt is not None:
+                good += [pt, C.neg(pt)]
+                rec.ev("special_point_pair")
+        n_special = len(good) - 3
+        while len(good) < 3 + n_special + max(3, spec["n"] // 8):
             t = C.lift_x(rng.randrange(P_))
             if t:
                 good.append(t[rng.randrange(2)])
@@ -1151,6 +1451,13 @@ def judge_sec(blob, code, net, rec, m, cls="", all_entries=False):
     if all_entries or (sum(blob) + len(blob)) % (8 if not m.pure else 64) == 0:
         # the dispatcher costs a point multiplication per call (it builds the key of exponent 1 to find the curve): a blob-determined share
         entries.append(("parse.public_key", net.parse.public_key, text))
+    if why == "ok":
+        # refused relatives of this very point (x + p alias, hybrid, truncated, not bytes ...) right in front of its decoding
+        dk = (sum(blob[-4:]) + len(blob)) % len(SEC_REFUSED_KINDS)
+        for j in range(2):
+            refused_call(SEC_REFUSED_KINDS[(dk + j) % len(SEC_REFUSED_KINDS)], dk + j, net, code, rec, m, comp=comp, P=Pt)
+    if all_entries or (sum(blob) + 3 * len(blob)) % 8 == 0:
+        judge_mutable_sec(net, code, blob, rec, m)
     for name, fn, arg in entries:
         rec.ev(name)
         st, k = observe(fn, arg)
@@ -1344,14 +1651,37 @@ def check_der_pair(r, s, rec, m, rng):
         rec.violation("der.encode_mismatch", case, e, exp)
         if st != "ok":
             return
+    # refused calls (kinds picked by the pair, so that a replay repeats them) between the judged ones
+    k0 = (r + 3 * s) % len(DER_REFUSED_KINDS)
+    dk = [DER_REFUSED_KINDS[(k0 + j) % len(DER_REFUSED_KINDS)] for j in range(3)]
+    refused_call(dk[0], k0, None, None, rec, m, r=r, s=s)
     rec.ev("sigdecode_der(strict)")
     st, back = observe(d.sigdecode_der, e, use_broken_open_ssl_mechanism=False)
     if st != "ok" or tuple(back) != (r, s):
         rec.violation("der.strict_roundtrip_mismatch", case, back, [r, s])
+    refused_call(dk[1], k0 + 1, None, None, rec, m, r=r, s=s)
     rec.ev("sigdecode_der(default)")
     st, back = observe(d.sigdecode_der, e)
     if st != "ok" or tuple(back) != (r, s):
         rec.violation("der.default_roundtrip_mismatch", case, back, [r, s])
+    refused_call(dk[2], k0 + 2, None, None, rec, m, r=r, s=s)
+    rec.ev("sigencode_der")
+    st, e2 = observe(d.sigencode_der, r, s)
+    if st != "ok" or e2 != exp:
+        rec.violation("der.encode_mismatch", case, e2, exp)
+    # the encoding handed over in a caller-owned bytearray: left as it was, the same answer both times
+    ba = bytearray(exp)
+    rec.ev("mutable_arg:der_bytearray")
+    a1 = observe(d.sigdecode_der, ba, use_broken_open_ssl_mechanism=False)
+    a2 = observe(d.sigdecode_der, ba, use_broken_open_ssl_mechanism=False)
+    if bytes(ba) != exp:
+        rec.violation("args.der_bytearray_modified", case, bytes(ba), exp)
+    elif a1[0] != a2[0] or (a1[0] == "ok" and tuple(a1[1]) != tuple(a2[1])):
+        rec.violation("args.der_second_call_differs", case, [a1[1], a2[1]], [r, s])
+    elif a1[0] == "ok" and tuple(a1[1]) != (r, s):
+        rec.violation("der.strict_roundtrip_mismatch", dict(case, argument="bytearray"), a1[1], [r, s])
+    elif a1[0] != "ok":
+        rec.ev("mutable_arg_refused")                  # bytes-only would be a legitimate API
     # trailing bytes after the sequence, and inside it after s
     junk = bytes(rng.randrange(256) for _ in range(rng.choice([1, 1, 2, 5])))
     for t in (exp + b"\x00", exp + junk):
@@ -1459,13 +1789,172 @@ def run_der(spec, rec, m):
         rec.ev("der_blob_every_length_0_70")
 
 
+# ---------------------------------------------------------------------------------------------
+# the N-th operation: ONE process, ONE generator object, ONE key object — more uses than a 16-bit counter holds
+
+LONGRUN_ENTRIES = ("keys.private", "parse.wif", "Key(secret_exponent=)", "parse.secret_exponent")
+LONGRUN_QUERIES = tuple((n, f) for n in FLAG_QUERIES for f in FLAGS) + tuple((n, None) for n in PLAIN_QUERIES)
+
+
+def _is_sum(P1, P2, Q):
+    """Q == P1 + P2 for two points with different x: the chord law with the slope cross-multiplied (no inversion)"""
+    (x1, y1), (x2, y2) = P1, P2
+    try:
+        x3, y3 = Q
+    except (TypeError, ValueError):
+        return False
+    if not (isinstance(x3, int) and isinstance(y3, int) and 0 <= x3 < P_ and 0 <= y3 < P_):
+        return False
+    dx, dy = x2 - x1, y2 - y1
+    return ((x3 + x1 + x2) * dx * dx - dy * dy) % P_ == 0 and ((y3 + y1) * dx - dy * (x1 - x3)) % P_ == 0
+
+
+def run_longrun(spec, rec, m, stop_at=None):
+    """Every key construction of the run is judged (none is made that is not): exponent e_i = e_(i-1) + d_j with d_j from a small table,
+    so that the public point is the running sum P_i = P_(i-1) + d_j*G. The point pycoin answers is tested against the addition law
+    (and taken over when it holds); every 512th is also recomputed as e_i*G from scratch."""
+    rng = shard_rng(spec["seed"], PROPERTY, spec["tier"], spec["shard"])
+    n_ops = int(spec["ops"])
+    # the networks that share the most common generator object, with the prefixes read off their first key
+    by_gen = {}
+    for code in sorted(m.nets):
+        by_gen.setdefault(id(m.nets[code].generator), []).append(code)
+    codes = max(by_gen.values(), key=len)
+    pfs = {}
+    for code in codes:
+        pf = net_prefixes(m.nets[code], code, rec)
+        if pf is not None:
+            pfs[code] = pf
+    codes = [c for c in codes if c in pfs]
+    if not codes:
+        rec.ev("inconclusive:longrun_no_network")
+        return
+    deltas = [1, 2, N - 1, N - 2, 1 << 128, (1 << 255) + 1] + [rng.randrange(1, N) for _ in range(10)]
+    dpts = [C.mul(d, C.G) for d in deltas]
+    se = rng.randrange(1, N)
+    P = C.mul(se, C.G)
+    # the one key object (and its public twin) asked one thing per step for the whole run
+    code1 = codes[rng.randrange(len(codes))]
+    se1, comp1 = rng.randrange(1, N), rng.random() < 0.5
+    P1 = C.mul(se1, C.G)
+    one = {}
+    for label, make, mo in (("private", lambda: m.nets[code1].keys.private(se1, is_compressed=comp1), KM(se1, P1, comp1)),
+                            ("public", lambda: m.nets[code1].keys.public(RS.encode(P1, comp1)), KM(None, P1, comp1))):
+        st, obj = observe(make)
+        if st != "ok" or tuple(obj.public_pair()) != P1:
+            rec.violation("key.valid_exponent_refused" if label == "private" else "sec.rejects_valid", {"net": code1, "se": se1, "compressed": comp1}, obj, P1)
+            return
+        one[label] = (obj, {q: km_expect(mo, q[0], q[1], pfs[code1]) for q in LONGRUN_QUERIES})
+    where = {"seed": spec["seed"], "tier": spec["tier"], "shard": spec["shard"], "ops": n_ops}
+    every_step = spec["tier"] != "quick"
+    judged = 0
+    for i in range(n_ops):
+        if stop_at is not None and i > stop_at:
+            break
+        j = rng.randrange(len(deltas))
+        if (se + deltas[j]) % N == 0:
+            j = (j + 1) % len(deltas)
+        prev = P
+        se = (se + deltas[j]) % N
+        code = codes[i % len(codes)]
+        net, pf = m.nets[code], pfs[code]
+        entry = LONGRUN_ENTRIES[rng.randrange(4)]
+        comp = True if entry == "parse.secret_exponent" else rng.random() < 0.5
+        case = {"net": code, "se": se, "compressed": comp, "entry": entry, "longrun": dict(where, at=i)}
+        wif = RW.encode(pf["wif"], se, comp) if entry == "parse.wif" else None
+        if entry == "keys.private":
+            st, k = observe(net.keys.private, se, is_compressed=comp)
+        elif entry == "parse.wif":
+            st, k = observe(net.parse.wif, wif)
+        elif entry == "Key(secret_exponent=)":
+            st, k = observe(m.keyclass(code), secret_exponent=se, is_compressed=comp)
+        else:
+            st, k = observe(net.parse.secret_exponent, str(se))
+        judged += 1
+        rec.ev("longrun:key_constructions")
+        rec.case(("longrun", code, se, comp, entry))
+        if st != "ok" or k is None:
+            rec.violation("longrun.valid_key_refused", case, k, "key")
+            P = C.add(prev, dpts[j])
+            continue
+        st, pair = observe(lambda: tuple(k.public_pair()))
+        full = i % 512 == 0 or prev[0] == dpts[j][0]
+        if full or st != "ok" or not _is_sum(prev, dpts[j], pair):
+            P = C.add(prev, dpts[j])
+            if i % 512 == 0 and P != C.mul(se, C.G):
+                rec.ev("inconclusive:longrun_running_sum_off")
+                rec.note("long run: the running sum of points left e*G at step %d" % i)
+                return
+            if st == "ok" and pair == P and not full:
+                rec.ev("inconclusive:longrun_addition_law_test")
+                rec.note("long run: the cross-multiplied addition law refused a point the affine addition gives (step %d)" % i)
+                return
+            if st != "ok" or pair != P:
+                rec.violation("longrun.public_pair_mismatch", case, pair, P)
+                continue
+        else:
+            P = pair
+        sec = RS.encode(P, comp)
+        h = RS.hash160(sec)
+        names = ["secret_exponent", "compression_flag", "sec", "hash160"]
+        obs = [observe(k.secret_exponent)[1], observe(k.is_compressed)[1], observe(k.sec)[1], observe(k.hash160)[1]]
+        obs[1] = bool(obs[1]) if obs[1] in (0, 1) else obs[1]
+        exp = [se, comp, sec, h]
+        if every_step or i % 8 == 0 or entry == "parse.wif":
+            # pycoin's Base58 conversion costs a sixth of a point multiplication: the texts of a share of the keys on the quick tier
+            rec.ev("longrun:texts_judged")
+            names += ["wif", "address"]
+            obs += [observe(k.wif)[1], observe(k.address)[1]] if every_step or i % 8 == 0 else [observe(k.wif)[1], None]
+            exp += [wif or RW.encode(pf["wif"], se, comp), RB.encode_check(pf["addr"] + h) if obs[-1] is not None or every_step or i % 8 == 0 else None]
+        if obs != exp:
+            rec.violation("longrun.%s_mismatch" % [n for n, a, b in zip(names, obs, exp) if a != b][0], case, obs, exp)
+        if every_step:
+            # the compressed encoding read back (decompression: one square root on the shared generator per step; thorough tier)
+            rec.ev("longrun:sec_decodes")
+            blob = sec if comp else RS.encode(P, True)
+            st, pk = observe(net.keys.public if i & 1 else m.keyclass(code).from_sec, blob)
+            if st != "ok":
+                rec.violation("longrun.sec_rejects_valid", dict(case, blob=blob), pk, P)
+            elif tuple(pk.public_pair()) != P or observe(pk.sec)[1] != blob or not pk.is_compressed():
+                rec.violation("longrun.sec_decode_mismatch", dict(case, blob=blob), [tuple(pk.public_pair()), observe(pk.sec)[1]], [P, blob])
+        # one question to the long-lived objects
+        q = LONGRUN_QUERIES[rng.randrange(len(LONGRUN_QUERIES))]
+        if q[0] in ("address", "wif") and not every_step and rng.randrange(8):
+            q = ("fingerprint", q[1])                  # (Base58 again)
+        # sec, hash160 and public_pair on every step (each of them more often than 2^16 times on the one object), one more at random
+        f = FLAGS[i % 3]
+        for label, q in [(lb, q_) for lb in ("private", "public") for q_ in (("sec", f), ("hash160", f), ("public_pair", None), q)]:
+            obj, want = one[label]
+            rec.ev("longrun:one_object_queries")
+            meth = getattr(obj, q[0])
+            st, got = observe(meth) if q[1] is None else observe(meth, is_compressed=q[1])
+            if q[0] == "public_pair" and st == "ok" and got is not None:
+                got = tuple(got)
+            if q[0] in ("is_compressed", "is_private") and st == "ok" and got in (0, 1):
+                got = bool(got)
+            if want[q] is None and q[0] in ("wif", "secret_exponent") and _no_secret((st, got)):
+                continue
+            if st != "ok" or got != want[q]:
+                rec.violation("longrun.one_object.%s_mismatch" % q[0], {"net": code1, "se": se1, "compressed": comp1, "object": label, "query": list(q),
+                                                                       "longrun": dict(where, at=i)}, got, want[q])
+    if judged > 1 << 16:
+        rec.ev("longrun:more_than_2^16_on_one_generator")
+        rec.ev("longrun:more_than_2^16_on_one_object")
+    if judged > 1 << 17:
+        rec.ev("longrun:more_than_2^17_on_one_generator")
+    rec.ev("networks_usable", len(codes))
+    rec.sample({"op": "long run in one process", "key_constructions_judged": judged, "networks": len(codes), "entries": list(LONGRUN_ENTRIES),
+                "last": {"net": code, "secret_exponent": se, "public_pair": P}})
+
+
 REQUIRED = {
-    "roundtrip": ("parse.wif", "keys.public(sec)", "Key.from_sec", "sec_to_public_pair", "key.sec", "key.hash160", "key.address", "key.wif",
+    "roundtrip": tuple("refused_call:" + k_ for k_ in REFUSED_KINDS) + ("mutable_arg:sec_bytearray", "returned_container:immutable", "short_coordinate_key:x", "short_coordinate_key:y",
+                                                                                "short_coordinate_key:both") + ("parse.wif", "keys.public(sec)", "Key.from_sec", "sec_to_public_pair", "key.sec", "key.hash160", "key.address", "key.wif",
                   "Key(secret_exponent)", "Key(public_pair)", "key.sec_as_hex", "sec_text_roundtrip", "key.query_history", "networks_usable"),
-    "secret": ("bad_secret_exponent", "bad_secret_exponent_text", "parse.wif(out_of_range)", "off_curve_pair", "foreign_curve_point:off_curve",
+    "secret": ("mutable_arg:pair_list", "special_point_pair", "bad_secret_exponent", "bad_secret_exponent_text", "parse.wif(out_of_range)", "off_curve_pair", "foreign_curve_point:off_curve",
                "foreign_curve_point:on_curve", "pair_form:point_own", "pair_form:tuple", "infinity_pair", "Key(public_pair)", "networks_usable")
               + tuple("bad_secret_exponent:" + c for c in BAD_SECRET_CLASSES),
-    "sec": ("Key.from_sec", "keys.public(sec)", "sec_to_public_pair", "parse.sec", "parse.public_key", "sec_text_accepted", "sec_text_refused",
+    "sec": tuple("refused_call:" + k_ for k_ in SEC_REFUSED_KINDS) + ("mutable_arg:sec_bytearray",) + ("Key.from_sec", "keys.public(sec)", "sec_to_public_pair", "parse.sec", "parse.public_key", "sec_text_accepted", "sec_text_refused",
             "sec_class:ok", "sec_class:length", "sec_class:prefix", "sec_class:x_ge_p", "sec_class:y_ge_p", "sec_class:no_point", "sec_class:off_curve",
             "sec_hybrid_of_real_point") + tuple("sec_wrong_prefix:%02x" % b for b in (0, 1, 5, 6, 7)),
     "history": ("key.query_history", "derived_query", "source_query", "side_step:ku_output")
@@ -1474,11 +1963,13 @@ REQUIRED = {
     "wif": ("parse.wif", "parse.private_key", "parse.secret", "parse", "wif_class:ok", "wif_class:marker", "wif_class:length",
             "wif_class:prefix", "wif_class:range", "wif_class:checksum", "wif_text_accepted", "wif_text_refused", "wif_text_object_reused",
             "wif_text_object_reused_across_networks"),
-    "der": ("sigencode_der", "sigdecode_der(strict)", "sigdecode_der(default)", "der_blob_rejected:trailing", "der_blob_rejected:malformed",
+    "longrun": ("longrun:key_constructions", "longrun:texts_judged", "longrun:one_object_queries", "longrun:more_than_2^16_on_one_generator",
+                "longrun:more_than_2^16_on_one_object", "networks_usable"),
+    "der": tuple("refused_call:" + k_ for k_ in DER_REFUSED_KINDS) + ("mutable_arg:der_bytearray",) + ("sigencode_der", "sigdecode_der(strict)", "sigdecode_der(default)", "der_blob_rejected:trailing", "der_blob_rejected:malformed",
             "der_blob_accepted", "der_trailing:after_sequence", "der_trailing:inside_sequence_after_s"),
 }
 # reached by the default-configuration shards only (budget): the whole-run requirement is attached there
-REQUIRED_DEFAULT_ONLY = {"sec": ("sec_blob_every_length_0_70",), "der": ("der_blob_every_length_0_70",),
+REQUIRED_DEFAULT_ONLY = {"roundtrip": ("argument_flavour:int_subclass_exponent_int_flag",), "sec": ("sec_blob_every_length_0_70",), "der": ("der_blob_every_length_0_70",),
                          "history": ("derive:child", "derive:child_pub")}
 
 
@@ -1509,7 +2000,9 @@ def run_shard(spec, rec):
         rec.note("shard %s planned for the %s configuration ran with %s arithmetic" % (spec.get("label", kind), planned, active))
     reqs = REQUIRED[kind] + REQUIRED_DEFAULT_ONLY.get(kind, ()) if planned == "openssl" else REQUIRED_PURE.get(kind, REQUIRED[kind])
     rec.require(*reqs)
-    {"roundtrip": run_roundtrip, "secret": run_secret, "sec": run_sec, "history": run_histories, "wif": run_wif, "der": run_der}[kind](spec, rec, m)
+    if kind == "longrun" and spec["tier"] != "quick":
+        rec.require("longrun:more_than_2^17_on_one_generator", "longrun:sec_decodes")
+    {"roundtrip": run_roundtrip, "secret": run_secret, "sec": run_sec, "history": run_histories, "wif": run_wif, "der": run_der, "longrun": run_longrun}[kind](spec, rec, m)
     if planned == "purepython":
         # counters are summed over shards: the clauses reached in the second configuration are shown (and required) under its own name
         for r in reqs:
@@ -1521,7 +2014,11 @@ def run_shard(spec, rec):
 def replay_case(case, rec):
     m = M(rec)
     m.replay = True
-    if "der_blob" in case:
+    if "longrun" in case:
+        # the N-th operation of a process: the whole run up to that step is repeated
+        lr = case["longrun"]
+        run_longrun({"seed": int(lr["seed"]), "tier": lr["tier"], "shard": int(lr["shard"]), "ops": int(lr["ops"])}, rec, m, stop_at=int(lr["at"]))
+    elif "der_blob" in case:
         judge_der_blob(case["der_blob"], rec, m)
     elif "r" in case and "s" in case:
         check_der_pair(int(case["r"]), int(case["s"]), rec, m, shard_rng(0, PROPERTY, "replay", 0))
@@ -1548,4 +2045,6 @@ def replay_case(case, rec):
         judge_bad_secret(m.nets[case["net"]], case["net"], int(case["se"]), case["entry"], rec, m)
     elif "se" in case:
         net = m.nets[case["net"]]
+        if case.get("disturb_from") is not None:
+            m.disturb = Disturber(rec, m, start=int(case["disturb_from"]))
         check_key(net, case["net"], int(case["se"]), bool(case["compressed"]), rec, m, {})
